@@ -292,7 +292,8 @@ Proof.
   destruct (N.eqb_spec (lenN f) 0); [lia|].
   destruct (N.ltb_spec (lenN f) fo); [lia|].
   destruct (N.eqb_spec fo (lenN f)); [lia|].
-  unfold block_offset_at_file_offset at 1 2 3 4 5 6 7. fold bo. fold bi. fold last.
+  change (block_offset_at_file_offset fo bs) with bo. fold bi. fold last.
+  clearbody bo bi.
   destruct (nthN_lt_Some (block bs f bo) bi BIL) as [x0 X0]. rewrite X0.
   (* ---- B1 / B2: the end of the line *)
   assert (B12 : exists e after bme,
@@ -354,9 +355,10 @@ Proof.
   destruct (N.eqb_spec fo 0) as [Z|Z].
   - (* A0 *)
     apply SUFF. subst fo.
-    assert (bo = 0 /\ bi = 0) as [-> ->].
-    { subst bo bi. unfold block_index_at_file_offset, file_offset_at_block_offset, block_offset_at_file_offset.
-      rewrite N.div_0_l by lia. split; [reflexivity|lia]. }
+    assert (bo = 0 /\ bi = 0) as [B0 B1].
+    { split; [|lia]. destruct (N.eq_dec bo 0) as [?|NZ]; [assumption|].
+      pose proof (mul_lt_bs 0 bo bs ltac:(lia)). lia. }
+    subst bo bi.
     exists ((block_offset_at_file_offset 0 bs, block_index_at_file_offset 0 bs, bme + 1) :: after), 0, e.
     split; [reflexivity|]. split; [|split; [|exact E]].
     + unfold block_offset_at_file_offset, block_index_at_file_offset, file_offset_at_block_offset.
@@ -365,7 +367,7 @@ Proof.
     + unfold is_beg. repeat split; [lia| |left; reflexivity]. intros k K1 K2. lia.
   - (* A2 *)
     pose proof (div_mod_bs (fo - 1) bs H) as [EQ1 BI1].
-    unfold block_offset_at_file_offset.
+    change (block_offset_at_file_offset (fo - 1) bs) with ((fo - 1) / bs).
     set (bof := (fo - 1) / bs) in *. set (bi1 := block_index_at_file_offset (fo - 1) bs) in *.
     assert (BACK : exists ps b,
       (if bof =? bo
@@ -379,7 +381,7 @@ Proof.
       chain bs ps b (e + 1) /\ is_beg f fo b).
     { destruct (N.eqb_spec bof bo) as [EB|EB].
       - (* A2a: fo is not the first byte of its block *)
-        assert (bi1 + 1 = bi) by lia.
+        assert (bi1 + 1 = bi) by (rewrite EB in EQ1; lia).
         destruct (rfind_nl (firstnN (bi1 + 1) (block bs f bo))) as [i|] eqn:RF.
         + apply rfind_nl_Some in RF as [A B].
           assert (I : i < bi1 + 1).
@@ -400,7 +402,8 @@ Proof.
           specialize (MID 0 ltac:(lia)). replace (bo * bs + 0) with (bo * bs) in MID by lia.
           destruct (N.eqb_spec bof 0) as [Z0|Z0]; cbn [negb].
           * exists ((bo, 0, bme + 1) :: after), 0. split; [reflexivity|].
-            assert (bo = 0) by lia. subst bo. replace (0 * bs) with 0 in * by lia.
+            assert (BZ : bo * bs = 0) by (rewrite <- EB, Z0; lia).
+            rewrite BZ in MID, NN.
             split; [exact MID|]. unfold is_beg. repeat split; [lia|exact NN|left; reflexivity].
           * rewrite EB.
             apply (bwd_blocks_ok bs f fo (e + 1) H F fuel (bo - 1)); [lia| | |
@@ -409,10 +412,11 @@ Proof.
             -- lia.
       - (* A2b: fo is the first byte of its block *)
         assert (BB : bof + 1 = bo /\ bi = 0).
-        { assert (bof <= bo) by (apply div_mono; lia).
-          assert (bof < bo) by lia. pose proof (mul_lt_bs bof bo bs H1). split; [|lia].
-          destruct (N.lt_ge_cases (bof + 1) bo) as [X|X]; [|lia].
-          pose proof (mul_lt_bs (bof + 1) bo bs X). lia. }
+        { destruct (N.lt_trichotomy bof bo) as [X|[X|X]]; [|lia|].
+          - pose proof (mul_lt_bs bof bo bs X).
+            destruct (N.lt_ge_cases (bof + 1) bo) as [Y|Y];
+              [pose proof (mul_lt_bs (bof + 1) bo bs Y); lia|]. split; lia.
+          - pose proof (mul_lt_bs bo bof bs X). lia. }
         destruct BB as [BB1 BB2].
         specialize (MID 0 ltac:(lia)). replace (bo * bs + 0) with (bo * bs) in MID by lia.
         apply (bwd_blocks_ok bs f fo (e + 1) H F fuel bof); [lia| | | |rewrite BB1; exact MID].
